@@ -2,7 +2,10 @@
 
 package netflow5
 
-import "bytes"
+import (
+	"bytes"
+	"net"
+)
 
 // C08 — NetFlow v5 flows are decoded field-for-field.
 // Reference: the 24-octet header table and the 48-octet record table (DESIGN.md A.1),
@@ -83,6 +86,46 @@ func VerifV5Any() {
 		verifAssert(len(msg.Flows) <= 30, "at most 30 flows")
 		verifAssert(len(msg.Flows)*48 <= n, "no more flows than the datagram has 48-octet records")
 		msg.JSONMarshal(new(bytes.Buffer))
+	}
+	verifReach("end")
+}
+
+// C05/C08 for NetFlow v5: the JSON published for a decoded packet of k flows (k = param)
+// is valid and carries exporter address, header and every flow field exactly, addresses
+// in dotted form.
+func VerifV5JSON() {
+	k := verifParam("flows", 2)
+	buf, n, ip := verifV5Input()
+	cnt16 := be16(buf, 2)
+	verifAssume(verifAll(n >= 24, be16(buf, 0) == 5, int(cnt16) == k, n >= 24+48*k))
+	msg, err := NewDecoder(ip, buf).Decode()
+	verifAssume(verifAll(err == nil, msg != nil))
+	out, merr := msg.JSONMarshal(new(bytes.Buffer))
+	verifAssert(merr == nil, "encoding a decoded packet does not fail")
+	h := verifJSONParse(out)
+	verifAssert(verifJSONValid(h), "the published payload is one syntactically valid JSON document")
+	verifAssert(verifJSONStr(h, "AgentID", net.IP(ip).String()), "exporter address")
+	verifAssert(verifAll(verifJSONNum(h, "Header.Version", 5, true), verifJSONNum(h, "Header.Count", uint64(cnt16), true),
+		verifJSONNum(h, "Header.SysUpTimeMSecs", uint64(be32(buf, 4)), true), verifJSONNum(h, "Header.UNIXSecs", uint64(be32(buf, 8)), true),
+		verifJSONNum(h, "Header.UNIXNSecs", uint64(be32(buf, 12)), true), verifJSONNum(h, "Header.SeqNum", uint64(be32(buf, 16)), true),
+		verifJSONNum(h, "Header.EngType", uint64(verifAt(buf, 20)), true), verifJSONNum(h, "Header.EngID", uint64(verifAt(buf, 21)), true),
+		verifJSONNum(h, "Header.SmpInt", uint64(be16(buf, 22)), true)), "header fields")
+	verifAssert(verifJSONLen(h, "Flows") == k, "one object per flow")
+	for i := 0; i < k; i++ {
+		o := 24 + 48*i
+		p := "Flows[" + string(rune('0'+i)) + "]"
+		verifAssert(verifJSONStr(h, p+".SrcAddr", net.IP(buf[o:o+4]).String()), "SrcAddr in dotted form")
+		verifAssert(verifJSONStr(h, p+".DstAddr", net.IP(buf[o+4:o+8]).String()), "DstAddr in dotted form")
+		verifAssert(verifJSONStr(h, p+".NextHop", net.IP(buf[o+8:o+12]).String()), "NextHop in dotted form")
+		verifAssert(verifAll(verifJSONNum(h, p+".Input", uint64(be16(buf, o+12)), true), verifJSONNum(h, p+".Output", uint64(be16(buf, o+14)), true),
+			verifJSONNum(h, p+".PktCount", uint64(be32(buf, o+16)), true), verifJSONNum(h, p+".L3Octets", uint64(be32(buf, o+20)), true),
+			verifJSONNum(h, p+".StartTime", uint64(be32(buf, o+24)), true), verifJSONNum(h, p+".EndTime", uint64(be32(buf, o+28)), true)), "flow counters and times")
+		verifAssert(verifAll(verifJSONNum(h, p+".SrcPort", uint64(be16(buf, o+32)), true), verifJSONNum(h, p+".DstPort", uint64(be16(buf, o+34)), true),
+			verifJSONNum(h, p+".Padding1", uint64(verifAt(buf, o+36)), true), verifJSONNum(h, p+".TCPFlags", uint64(verifAt(buf, o+37)), true),
+			verifJSONNum(h, p+".ProtType", uint64(verifAt(buf, o+38)), true), verifJSONNum(h, p+".Tos", uint64(verifAt(buf, o+39)), true)), "flow ports/flags/protocol/tos")
+		verifAssert(verifAll(verifJSONNum(h, p+".SrcAsNum", uint64(be16(buf, o+40)), true), verifJSONNum(h, p+".DstAsNum", uint64(be16(buf, o+42)), true),
+			verifJSONNum(h, p+".SrcMask", uint64(verifAt(buf, o+44)), true), verifJSONNum(h, p+".DstMask", uint64(verifAt(buf, o+45)), true),
+			verifJSONNum(h, p+".Padding2", uint64(be16(buf, o+46)), true)), "flow AS numbers/masks")
 	}
 	verifReach("end")
 }
